@@ -417,19 +417,20 @@ theorem no_return_values_rejected (g : G) (tg : Target) (pre : Beh) (o : OriginV
   have := (too_few_returns_rejected tg.sig none [] false (by simpa using h)).1
   simp [funcCall, firstReturnValues, this]
 
-/-- when.go:81/85 — **too few condition arguments**: typed cause `*erro.ArgsNotMatch(got, want)`; for methods the receiver
-    is not counted -/
-theorem too_few_args_rejected (s : Sig) (as : List V) (m : Bool)
-    (h : as.length < (inTypes m s).length) :
-    createWhen s (some as) none m = .error ⟨.argsNotMatch, [.argsNotMatch as.length (inTypes m s).length]⟩ := by
-  cases m with
-  | false =>
-    simp only [inTypes, Bool.false_eq_true, if_false] at h ⊢
-    simp [createWhen, checkParams, h, rej, bind, Except.bind, pure, Except.pure]
-  | true =>
-    simp only [inTypes, if_true, List.length_drop] at h ⊢
-    have h' : as.length + 1 < s.ins.length := by omega
-    simp [createWhen, checkParams, h', rej, bind, Except.bind, pure, Except.pure]
+/-- the number of condition arguments a first `When` must at least give (when.go:80-88): the parameters without the
+    receiver and without the variadic slot — `When(1)` on `f(int, ...int)` describes the legal call `f(1)` -/
+def requiredArgs (s : Sig) (m : Bool) : Nat :=
+  s.ins.length - (if m then 1 else 0) - (if s.variadic then 1 else 0)
+
+/-- when.go:89 — **too few condition arguments** (fewer than the FIXED parameters): typed cause `*erro.ArgsNotMatch(got, want)` -/
+theorem too_few_args_rejected (s : Sig) (as : List V) (m : Bool) (h : as.length < requiredArgs s m) :
+    createWhen s (some as) none m = .error ⟨.argsNotMatch, [.argsNotMatch as.length (requiredArgs s m)]⟩ := by
+  unfold requiredArgs at h ⊢
+  simp [createWhen, checkParams, h, rej, bind, Except.bind, pure, Except.pure]
+
+example : createWhen ⟨[⟨.str, 16, 31, false, 0⟩, ⟨.int, 8, 25, false, 0⟩, ⟨.slice, 24, 32, false, 0⟩], [], true, ⟨.int, 8, 25, false, 0⟩⟩
+    (some [.val ⟨.str, 16, 31, false, 0⟩]) none false = .error ⟨.argsNotMatch, [.argsNotMatch 1 2]⟩ :=
+  too_few_args_rejected _ _ _ (by decide)
 
 /-- **any wrong number of return values** (too few or too many) is rejected, whatever the values are -/
 theorem wrong_return_count_rejected (s : Sig) (vals : List V) (m : Bool) (h : vals.length ≠ s.outs.length) :
